@@ -672,13 +672,16 @@ class Stage:
         if depends_on(expr, self.u):
             raise Exception("Dependency on controls not supported yet for stage.der")
         ode = self._ode()
+        # quadrature states are states as well: their declared right-hand side is the "quad" output
         if depends_on(expr,self.t) or nominal_symbols:
-            return jtimes(expr, vertcat(self.x, self.t, *nominal_symbols), vertcat(ode(x=self.x, u=self.u, z=self.z, p=vertcat(self.p, self.v), t=self.t)["ode"], 1, *der_symbols))
+            rhs = ode(x=self.x, u=self.u, z=self.z, p=vertcat(self.p, self.v), t=self.t)
+            return jtimes(expr, vertcat(self.x, self.xq, self.t, *nominal_symbols), vertcat(rhs["ode"], rhs["quad"], 1, *der_symbols))
         else:
-            if expr in self.states:
-                return jtimes(expr, self.x, ode.call(dict(x=self.x, u=self.u, z=self.z, p=vertcat(self.p, self.v), t=self.t),True,False)["ode"])
+            if expr in self.states or expr in self.qstates:
+                rhs = ode.call(dict(x=self.x, u=self.u, z=self.z, p=vertcat(self.p, self.v), t=self.t),True,False)
             else:
-                return jtimes(expr, self.x, ode(x=self.x, u=self.u, z=self.z, p=vertcat(self.p, self.v), t=self.t)["ode"])
+                rhs = ode(x=self.x, u=self.u, z=self.z, p=vertcat(self.p, self.v), t=self.t)
+            return jtimes(expr, vertcat(self.x, self.xq), vertcat(rhs["ode"], rhs["quad"]))
 
 
     def integral(self, expr, grid='inf',refine=1):
